@@ -526,6 +526,10 @@ impl SpanInner {
     fn capture_local_spans(&self, stack: Rc<RefCell<LocalSpanStack>>) -> LocalParentGuard {
         let token = self.issue_collect_token().collect();
         let collector = LocalCollector::new(Some(token), stack);
+        if collector.is_noop() {
+            // The span stack is full: nothing is captured, so there is nothing to submit.
+            return LocalParentGuard::noop();
+        }
 
         LocalParentGuard::new(collector, self.collect.clone())
     }
